@@ -290,8 +290,39 @@ class SymTensor(torch.Tensor):
                 return t.meta.shape[0]
             if name == "__repr__" or name == "__str__" or name == "__format__":
                 return repr(t)
+        if name == "__getitem__" and len(args) == 2:
+            r = _getitem_symbolic_scalar_index(args[0], args[1])
+            if r is not NotImplemented:
+                return r
         with torch._C.DisableTorchFunctionSubclass():
             return func(*args, **kwargs)
+
+
+def _is_sym0d(k):
+    if isinstance(k, SymTensor) and k.meta.dim() == 0 and not k.dtype.is_floating_point and k.dtype != torch.bool:
+        v = k.arr().reshape(-1)[0]
+        return type(v) not in _CONC
+    return False
+
+
+def _getitem_symbolic_scalar_index(base, key):
+    """x[i] with a 0-dim symbolic integer tensor i: torch would call int(i); keep it symbolic instead by
+    indexing with i.reshape(1) and dropping the resulting unit dimension"""
+    keys = key if isinstance(key, tuple) else (key,)
+    if not any(_is_sym0d(k) for k in keys):
+        return NotImplemented
+    newkeys = []
+    for k in keys:
+        if _is_sym0d(k):
+            newkeys.append(k.reshape(1))
+        elif isinstance(k, int):
+            newkeys.append(torch.tensor([k]))
+        elif isinstance(k, torch.Tensor) and k.dim() == 0:
+            newkeys.append(k.reshape(1))
+        else:
+            raise NotEncodable("symbolic scalar index mixed with slices")
+    r = base[tuple(newkeys)]
+    return r[0]
 
 
 def _item(t):
